@@ -168,7 +168,16 @@ def build_hwmon(w, inp, rnd, big=False):
         w.files[d + "/type"] = z["type"].encode() + b"\n"
         w.files[d + "/mode"] = b"enabled\n"
         put(w, d + "/temp", z["temp"], rnd)
-        for j, t in enumerate(z["trips"]):
+        # every other zone is a device-tree style one: ten passive/active cooling steps come first, so
+        # that the trips that matter carry two-digit numbers
+        off = 0
+        if k % 2:
+            off = 10
+            for j in range(10):
+                w.files["%s/trip_point_%d_type" % (d, j)] = (b"passive\n", b"active\n")[j % 2]
+                w.files["%s/trip_point_%d_temp" % (d, j)] = b"%d\n" % (7000 + 500 * j)
+                w.files["%s/trip_point_%d_hyst" % (d, j)] = b"0\n"
+        for j, t in enumerate(z["trips"], off):
             w.files["%s/trip_point_%d_type" % (d, j)] = t["type"].encode() + b"\n"
             put(w, "%s/trip_point_%d_temp" % (d, j), t["temp"], rnd)
             w.files["%s/trip_point_%d_hyst" % (d, j)] = b"0\n"
